@@ -8,6 +8,22 @@ pub fn main(args: &[String]) -> i32 {
             let depth: usize = args[2].parse().unwrap_or(0);
             crate::props::c01::child_nest(&args[1], depth, &args[3])
         }
+        // debugging aid: enter the lines of a file, RUN (replies "0"), print the transcript's end
+        Some("runlines") if args.len() >= 2 => {
+            crate::core::install_quiet_panic_hook();
+            let text = std::fs::read_to_string(&args[1]).unwrap_or_default();
+            let lines: Vec<String> = text.lines().map(|l| l.to_string()).collect();
+            match crate::run::load_and_run(&lines, 0, &[], 5000, &mut crate::run::NoHost) {
+                Ok(Ok((_, t))) => {
+                    println!("{:?} calls={} printed={:?}", t.end, t.calls, t.printed());
+                    0
+                }
+                other => {
+                    println!("{:?}", other.map(|_| ()).map_err(|c| c.0));
+                    1
+                }
+            }
+        }
         _ => 3,
     }
 }
